@@ -66,6 +66,12 @@ def audit(prop, theorems):
 
 
 def main():
+    # a runaway generator / oracle must fail this check, not take the machine down
+    try:
+        import resource
+        resource.setrlimit(resource.RLIMIT_AS, (24 << 30, 24 << 30))
+    except Exception:
+        pass
     args = [a for a in sys.argv[1:]]
     if len(args) < 1:
         print("usage: check <Cxx> quick|thorough [--replay file]")
@@ -117,6 +123,10 @@ def main():
             else:
                 cases = mod.corpus_cases() if hasattr(mod, "corpus_cases") else []
                 cases += mod.cases(rng, tier, stats)
+                skipped = [c for c in cases if c.info.get("skip")]
+                if skipped:
+                    stats["skipped_over_budget"] = len(skipped)
+                    cases = [c for c in cases if not c.info.get("skip")]
             if hasattr(mod, "fix_root"):
                 mod.fix_root(cases, root)
             results = C.run_cases(cases, root)
